@@ -1,9 +1,12 @@
 #!/bin/sh
 # runs every check of the given tier (default quick) and prints one line per check; logs under /tmp/verif_logs_<tier>/
+# usage: run_all.sh [quick|thorough] [ids...]
 tier="${1:-quick}"
+[ $# -gt 0 ] && shift
+ids="${*:-01 02 03 04 05 06 07 08 09 10 11 12 13 14 15 16 17 18 19 20}"
 cd "$(dirname "$0")" || exit 2
 L=/tmp/verif_logs_$tier; mkdir -p $L
-for i in 01 02 03 04 05 06 07 08 09 10 11 12 13 14 15 16 17 18 19 20; do
+for i in $ids; do
   s=$(date +%s)
   ./check C$i --tier $tier > $L/C$i.log 2>&1
   rc=$?
